@@ -479,6 +479,12 @@ class ServerSystem:
                       "clears_idle": ("idle_since" in kw and kw["idle_since"] is None)})
 
         async def append_event(run_id, envelope):
+            names = [getattr(envelope, "type", "")] + list(getattr(envelope, "types", None) or [])
+            if getattr(self, "event_faults", 0) > 0 and "StopEvent" in names:
+                # a transient failure of the store exactly when the run's terminal event is recorded
+                self.event_faults -= 1
+                self.log({"e": "store_event_failed", "rid": run_id})
+                raise StoreFault("injected store write failure (append_event)")
             await o_event(run_id, envelope)
             self.log({"e": "store_event", "rid": run_id})
 
